@@ -24,6 +24,7 @@ theorem pinv_stepCrash (s : State) (m : Move) (k j : Nat) (h : Inv s) (ha : assu
   have hc := inv_withCrash s k j h
   cases m with
   | filter ns name nodes ch fault => exact (inv_filter_core _ ns name nodes ch hc).toPInv
+  | preempt ns name nodes ch fault => exact (inv_preempt_core _ ns name nodes ch hc).toPInv
   | bind ns name uid node ch f pf => exact (bind_spec _ ns name uid node ch hc (assumed_bind ha)).1
   | deliver i f pf => exact (deliver_spec _ i hc).1.toPInv
   | resync order f pf => exact (resync_spec _ order hc).1.toPInv
@@ -32,11 +33,17 @@ theorem pinv_stepCrash (s : State) (m : Move) (k j : Nat) (h : Inv s) (ha : assu
     split
     · exact h.toPInv
     · rename_i r0 _
-      have hi : Inv { resyncOne Facts.good (withCrash s k j) ip r0 with resyncSnap := Tbl.erase s.resyncSnap ip } :=
-        (resyncOne_spec _ ip r0 hc).1.of_fields rfl rfl rfl rfl rfl rfl rfl rfl
-      exact hi.toPInv
+      split
+      · exact h.toPInv
+      · rename_i hin
+        have hin' : inChecklist r0 = true := by simpa using hin
+        have hi : Inv { resyncOne Facts.good (withCrash s k j) ip r0 with resyncSnap := Tbl.erase s.resyncSnap ip } :=
+          (resyncOne_spec _ ip r0 hc (inChecklist_not_admin r0 hin')).1.of_fields rfl rfl rfl rfl rfl rfl rfl rfl
+        exact hi.toPInv
   | syncPodIPs f => exact (syncPodIPs_spec _ hc).1.toPInv
-  | apiRelease ip key f pf => exact (apiRelease_spec _ ip key hc).1.toPInv
+  | apiRelease ip key f pf => exact (apiRelease_spec _ ip key hc (assumed_apiRelease ha)).1.toPInv
+  | adminReserve ip text policy => exact (inv_step s _ h ha).toPInv
+  | adminUnreserve ip => exact (inv_step s _ h ha).toPInv
   | reload pools fault => exact (reload_spec _ pools hc (assumed_reload (s := s) ha)).1.toPInv
   | createPod ns name kind app pool policy ranges wants => exact (inv_step s _ h ha).toPInv
   | deletePod ns name => exact (inv_step s _ h ha).toPInv
@@ -59,7 +66,7 @@ theorem pinv_confAfter (s : State) (m : Move) (k j : Nat) (h : Inv s) (ha : assu
     have hkeep := assumed_reload (s := s) ha
     have hpods : (stepCrash Facts.good k j s (.reload pools fault)).1.pods = s.pods :=
       (reload_spec _ pools (inv_withCrash s k j h) hkeep).2.1
-    refine ⟨hp.podsWF, hp.uidUniq, hp.uidPos, hp.podsNodup, fun q hq hd hm => ?_⟩
+    refine ⟨hp.podsWF, hp.uidUniq, hp.uidPos, hp.podsNodup, fun q hq hd hm => ?_, hp.adminStore⟩
     obtain ⟨r, g1, g2, g3, _⟩ := hp.storeOwn q hq hd hm
     refine ⟨r, g1, g2, g3, ?_⟩
     show configured (sortPools pools) hd.ip = true
@@ -69,12 +76,15 @@ theorem pinv_confAfter (s : State) (m : Move) (k j : Nat) (h : Inv s) (ha : assu
       rw [hpods] at this; exact this
     exact hkeep q hq' hd hm
   | filter ns name nodes ch fault => exact hp
+  | preempt ns name nodes ch fault => exact hp
   | bind ns name uid node ch f pf => exact hp
   | deliver i f pf => exact hp
   | resync order f pf => exact hp
   | resyncRec ip f pf => exact hp
   | syncPodIPs f => exact hp
   | apiRelease ip key f pf => exact hp
+  | adminReserve ip text policy => exact hp
+  | adminUnreserve ip => exact hp
   | createPod ns name kind app pool policy ranges wants => exact hp
   | deletePod ns name => exact hp
   | finishPod ns name => exact hp
@@ -100,15 +110,25 @@ theorem inv_restart_of_pinv (s : State) (hp : PInv s) : Inv (restart (withFaults
   have hpods : (restartBase (withFaults s 0 0)).pods = s.pods := rfl
   refine ⟨rc.coherent, ?_, ?_, ?_, ?_, ?_, ?_, ?_, ?_, ?_⟩
   · rw [rc.pods, hpods]
-    refine ⟨fun q hq hd hm => ?_⟩
-    obtain ⟨r, g1, g2, g3, g4⟩ := hp.storeOwn q hq hd hm
-    refine ⟨r, ?_, g2, g3⟩
-    rw [rc.alloc]
-    have hc : configured (withFaults s 0 0).pools hd.ip = true := g4
-    have hl : Tbl.get (listed (restartBase (withFaults s 0 0))) hd.ip = some r := by
-      show Tbl.get (s.store ++ s.orphans) hd.ip = some r
-      rw [Tbl.get_append, g1]; rfl
-    simp [hc, hl]
+    refine ⟨fun q hq hd hm => ?_, fun ip r hr => ?_⟩
+    · obtain ⟨r, g1, g2, g3, g4⟩ := hp.storeOwn q hq hd hm
+      refine ⟨r, ?_, g2, g3⟩
+      rw [rc.alloc]
+      have hc : configured (withFaults s 0 0).pools hd.ip = true := g4
+      have hl : Tbl.get (listed (restartBase (withFaults s 0 0))) hd.ip = some r := by
+        show Tbl.get (s.store ++ s.orphans) hd.ip = some r
+        rw [Tbl.get_append, g1]; rfl
+      simp [hc, hl]
+    · rw [configurePool_admin _ _ hok] at hr
+      by_cases hc : configured (withFaults s 0 0).pools ip = true
+      · rw [if_pos hc] at hr
+        have hr' : Tbl.get s.admin ip = some r := hr
+        obtain ⟨g1, g2⟩ := hp.adminStore ip r hr'
+        refine ⟨?_, g2⟩
+        rw [rc.alloc, if_pos hc]
+        show Tbl.get (s.store ++ s.orphans) ip = some r
+        rw [Tbl.get_append, g1]; rfl
+      · rw [if_neg hc] at hr; cases hr
   · rw [rc.pods, rc.nextUid]; exact hp.podsWF
   · rw [rc.pods]; exact hp.uidUniq
   · rw [rc.pods, rc.vPods, rc.nextUid]
